@@ -90,6 +90,20 @@ class Kern:
             if e[1] in ("HIGH", "LOW"):
                 return 1 if e[1] == "HIGH" else 0
             raise KernUnsupported(f"free variable {e[1]}")
+        if t == "member":
+            base = self.ev(e[1])
+            if isinstance(base, dict) and e[2] in base:
+                return base[e[2]]
+            raise KernUnsupported(f"member {e[2]} of a non-record value")
+        if t == "index":
+            base, i_ = self.ev(e[1]), self.ev(e[2])
+            if isinstance(base, (str, list)) and isinstance(i_, int):
+                if 0 <= i_ < len(base):
+                    return base[i_]
+                if isinstance(base, str) and i_ == len(base):
+                    return "\0"
+                raise KernUnsupported(f"index {i_} outside a {len(base)}-element value")
+            raise KernUnsupported("index of a non-sequence")
         if t == "cast":
             return conv(e[1], self.ev(e[2]))
         if t == "ctor" and len(e[2]) == 1:
@@ -117,19 +131,18 @@ class Kern:
             return self.ev(e[2]) if self.ev(e[1]) else self.ev(e[3])
         if t == "assign":
             tgt = e[2]
-            if tgt[0] != "var":
+            if tgt[0] not in ("var", "member"):
                 raise KernUnsupported("assignment to a non-variable")
             v = self.ev(e[3])
             if e[1] != "=":
                 v = self.arith(e[1][:-1], self.ev(tgt), v)
-            v = conv(self.types.get(tgt[1]), v)
-            self.env[tgt[1]] = v
-            return v
+            return self._store(tgt, v)
         if t in ("pre", "post"):
             tgt = e[2]
+            if tgt[0] not in ("var", "member"):
+                raise KernUnsupported("increment of a non-variable")
             old = self.ev(tgt)
-            new = old + (1 if e[1] == "++" else -1)
-            self.env[tgt[1]] = conv(self.types.get(tgt[1]), new)
+            new = self._store(tgt, old + (1 if e[1] == "++" else -1))
             return old if t == "post" else new
         if t == "call":
             nm = e[1] if isinstance(e[1], str) else None
@@ -152,8 +165,16 @@ class Kern:
         if t == "mcall":
             args = [self.ev(a) for a in e[3]]
             recv = e[1]
+            rv_ = None
             if recv[0] == "var" and isinstance(self.env.get(recv[1]), str):
-                sv = self.env[recv[1]]
+                rv_ = self.env[recv[1]]
+            elif recv[0] == "member":
+                try:
+                    rv_ = self.ev(recv)
+                except KernUnsupported:
+                    rv_ = None
+            if isinstance(rv_, str):
+                sv = rv_
                 if e[2] == "length":
                     return len(sv)
                 if e[2] == "substring":
@@ -166,6 +187,18 @@ class Kern:
             self.events.append((e[2], tuple(args)))
             return 0
         raise KernUnsupported(f"expression {t}")
+
+    def _store(self, tgt, v):
+        if tgt[0] == "var":
+            v = conv(self.types.get(tgt[1]), v)
+            self.env[tgt[1]] = v
+            return v
+        base = self.ev(tgt[1])
+        if not isinstance(base, dict):
+            raise KernUnsupported(f"store into member {tgt[2]} of a non-record value")
+        v = conv((base.get("__types__") or {}).get(tgt[2]), v)
+        base[tgt[2]] = v
+        return v
 
     @staticmethod
     def arith(op, a, b):
@@ -270,6 +303,7 @@ class CallKern(Kern):
             args = [self.ev(a) for a in e[2]]
             sub = CallKern(self.fns, consts=self.consts, max_steps=self.max_steps)
             sub.events = self.events
+            sub.call_hooks = self.call_hooks
             sub.steps = self.steps
             for (pn, pt), v in zip(fn["params"], args):
                 base_t = (pt or "").replace("const ", "").replace("&", "").strip()
